@@ -5,8 +5,6 @@ from ..harness import Scenario
 
 D = Decimal
 META = {
-    "claimed": False,
-    "na_reason": "check under construction",
     "level": "model_checking",
     "level_text": "Bounded symbolic model checking, one inductive step (plus listed two-operation chains): every public write operation of every "
     "market is run on the real classes at a fixed market row from an arbitrary valid pre-state (wallet balances, liquidity and pending fees, "
